@@ -338,6 +338,9 @@ inductive PEv where
   | eintr                                    -- xpoll: -1/EINTR, no timeout -> `continue`
   | poll (o e : Option (Option Nat))         -- xpoll returns: per descriptor `none` = not reported,
                                              -- `some cap` = reported (XPOLLREAD|XPOLLERR), handler called
+  | pollRev (o e : Option (Option Nat))      -- the same with the two "ready or closed ?" blocks in the other order
+                                             -- (stderr's handler first): the properties do not care, the
+                                             -- correspondence learns the order of the code under test
   deriving Repr
 
 /-- `while (xpfds[0].fd >= 0 || xpfds[1].fd >= 0)` is over -/
@@ -365,6 +368,9 @@ def pollStep (ops : BufOps β) (cfg : Cfg) (host : Bytes) (w : Worker β) : PEv 
   | .poll o e =>
     if w.loopLeft then w
     else (w.onReported ops cfg host false o).onReported ops cfg host true e     -- stdout first, then stderr
+  | .pollRev o e =>
+    if w.loopLeft then w
+    else (w.onReported ops cfg host true e).onReported ops cfg host false o     -- stderr first, then stdout
 
 def Worker.init (b0 : β) : Worker β :=
   { out := ({ buf := b0, pipe := [], weof := false, closed := false }, 0, []),
